@@ -269,7 +269,8 @@ def instrument(S):
 
         # code that looks at the queue's state directly (polling instead of join()) does so at a scheduling point
         def _peek(self, what):
-            if not _inside() and not S.evaluating() and threading.get_ident() in S.threads:
+            # (not while the looking thread holds the queue's own lock: parking it there would block every other thread for real)
+            if not _inside() and not S.evaluating() and not self.mutex.locked() and threading.get_ident() in S.threads:
                 S.peeks += 1
                 S.yield_(lambda: True, 'peek:%d:%s' % (self._vz_idx, what))
 
